@@ -22,12 +22,27 @@ theorem Live.inv {o : Obj} (h : Live o) : Inv o := fun _ => h
 def NoFail (toks : List Tok) : Prop := ∀ t ∈ toks, t ≠ .c false
 
 /-- `o'` has the channel count of `o`, and no error has been cleared on the way. -/
-def Ext (o o' : Obj) : Prop := o'.chans = o.chans ∧ (o'.error = none → o.error = none)
+def Ext (o o' : Obj) : Prop := o'.chans = o.chans ∧ o'.dead = o.dead ∧ (o'.error = none → o.error = none)
 
-theorem Ext.refl (o : Obj) : Ext o o := ⟨rfl, id⟩
+theorem Ext.refl (o : Obj) : Ext o o := ⟨rfl, rfl, id⟩
 theorem Ext.trans {a b c : Obj} (h1 : Ext a b) (h2 : Ext b c) : Ext a c :=
-  ⟨h2.1.trans h1.1, fun h => h1.2 (h2.2 h)⟩
-theorem Ext.inv {o o' : Obj} (h : Ext o o') (hi : Inv o) : Inv o' := fun he => by rw [h.1]; exact hi (h.2 he)
+  ⟨h2.1.trans h1.1, h2.2.1.trans h1.2.1, fun h => h1.2.2 (h2.2.2 h)⟩
+theorem Ext.inv {o o' : Obj} (h : Ext o o') (hi : Inv o) : Inv o' := fun he => by rw [h.1]; exact hi (h.2.2 he)
+
+/-- the object is in one of the two states the code can leave it in: it has its channel count and has not been torn
+    down, or it has been torn down by `fatal_error` (everything zero) and carries the error. -/
+def Wf (o : Obj) : Prop := (o.chans ≠ 0 ∧ o.dead = false) ∨ (o.dead = true ∧ o.error ≠ none)
+
+theorem Wf.inv {o : Obj} (h : Wf o) : Inv o := by
+  intro he
+  rcases h with ⟨h1, _⟩ | ⟨_, h2⟩
+  · exact h1
+  · exact absurd he h2
+
+theorem Ext.wf {o o' : Obj} (h : Ext o o') (hw : Wf o) : Wf o' := by
+  rcases hw with ⟨h1, h2⟩ | ⟨h1, h2⟩
+  · exact Or.inl ⟨by rw [h.1]; exact h1, by rw [h.2.1]; exact h2⟩
+  · exact Or.inr ⟨by rw [h.2.1]; exact h1, fun he => h2 (h.2.2 he)⟩
 theorem Ext.live {o o' : Obj} (h : Ext o o') (hl : Live o) : Live o' := by unfold Live; rw [h.1]; exact hl
 
 /-! ## the API layer keeps channel count and errors -/
@@ -40,9 +55,9 @@ theorem soxrInput_ext (o : Obj) (inNull : Bool) (len : Nat) (c c' : Ctx) (oi : O
   · rename_i he
     have hen : o.error = none := by cases hx : o.error <;> simp_all
     split at h
-    · rw [pure_ok] at h; obtain ⟨h1, -⟩ := h; subst h1; exact ⟨rfl, fun hn => by cases hn⟩
+    · rw [pure_ok] at h; obtain ⟨h1, -⟩ := h; subst h1; exact ⟨rfl, rfl, fun hn => by cases hn⟩
     · split at h
-      · rw [pure_ok] at h; obtain ⟨h1, -⟩ := h; subst h1; exact ⟨rfl, fun _ => hen⟩
+      · rw [pure_ok] at h; obtain ⟨h1, -⟩ := h; subst h1; exact ⟨rfl, rfl, fun _ => hen⟩
       · split at h
         · cases h
         · rw [bind_ok] at h
@@ -64,7 +79,7 @@ theorem pullLoop_ext (fuel : Nat) (o : Obj) (len0 olen odone0 : Nat) (c c' : Ctx
       rw [bind_ok] at h
       obtain ⟨_, c3, _, h⟩ := h
       split at h
-      · rw [pure_ok] at h; obtain ⟨h1, -⟩ := h; subst h1; exact ⟨rfl, fun hn => by cases hn⟩
+      · rw [pure_ok] at h; obtain ⟨h1, -⟩ := h; subst h1; exact ⟨rfl, rfl, fun hn => by cases hn⟩
       · rw [bind_ok] at h
         obtain ⟨oi, c4, hoi, h⟩ := h
         have e1 := soxrInput_ext o false cbr.1 c3 c4 oi hoi
@@ -78,7 +93,7 @@ theorem soxrOutput_ext (fuel : Nat) (o : Obj) (outNull : Bool) (len0 : Nat) (c c
   split at h
   · rw [pure_ok] at h; obtain ⟨h1, -⟩ := h; subst h1; exact Ext.refl o
   · split at h
-    · rw [pure_ok] at h; obtain ⟨h1, -⟩ := h; subst h1; exact ⟨rfl, fun hn => by cases hn⟩
+    · rw [pure_ok] at h; obtain ⟨h1, -⟩ := h; subst h1; exact ⟨rfl, rfl, fun hn => by cases hn⟩
     · exact pullLoop_ext fuel o len0 len0 0 c c' r h
 
 theorem processCore_ext (fuel : Nat) (o1 : Obj) (inNull outNull : Bool) (ilen olen : Nat) (c c' : Ctx)
@@ -103,7 +118,7 @@ theorem soxrProcess_ext (fuel : Nat) (o : Obj) (inNull : Bool) (ilen0 : BitVec 6
     (c c' : Ctx) (r : Obj × Nat × Nat) (h : soxrProcess fuel o inNull ilen0 outNull olen c = .ok r c') : Ext o r.1 := by
   unfold soxrProcess at h
   have e := processCore_ext _ _ _ _ _ _ _ _ _ h
-  exact ⟨e.1, e.2⟩
+  exact ⟨e.1, e.2.1, e.2.2⟩
 
 /-! ## `soxr_set_io_ratio` + `soxr_set_error` -/
 
@@ -182,11 +197,14 @@ theorem initLoop_nofail (o : Obj) (left made : Nat) (c c' : Ctx) (hn : NoFail c.
 theorem setError_chans (o : Obj) (e : Option Err) : (setError o e).chans = o.chans := by
   unfold setError; split <;> rfl
 
+theorem setError_dead (o : Obj) (e : Option Err) : (setError o e).dead = o.dead := by
+  unfold setError; split <;> rfl
+
 /-- with no failing `resampler_create`: channel count and stored error are untouched, and a stored error is what is
     returned. -/
 theorem setIoRatio_nofail (o : Obj) (r : D) (slew : Nat) (c c' : Ctx) (hn : NoFail c.toks) (oe : Obj × Option Err)
     (h : setIoRatio o r slew c = .ok oe c') :
-    oe.1.chans = o.chans ∧ oe.1.error = o.error ∧ (o.error ≠ none → oe.2 = o.error) := by
+    oe.1.chans = o.chans ∧ oe.1.dead = o.dead ∧ oe.1.error = o.error ∧ (o.error ≠ none → oe.2 = o.error) := by
   obtain ⟨cfg, chans, io, error, inited, dead, hasFn, maxIlen, flushing⟩ := o
   unfold setIoRatio at h
   simp only at h ⊢
@@ -194,39 +212,86 @@ theorem setIoRatio_nofail (o : Obj) (r : D) (slew : Nat) (c c' : Ctx) (hn : NoFa
   | some x =>
     simp only [Option.isSome_some, if_true] at h
     rw [pure_ok] at h; obtain ⟨h1, -⟩ := h; subst h1
-    exact ⟨rfl, rfl, fun _ => rfl⟩
+    exact ⟨rfl, rfl, rfl, fun _ => rfl⟩
   | none =>
     simp only [Option.isSome_none, Bool.false_eq_true, if_false] at h
     split at h
-    · rw [pure_ok] at h; obtain ⟨h1, -⟩ := h; subst h1; exact ⟨rfl, rfl, fun hh => absurd rfl hh⟩
+    · rw [pure_ok] at h; obtain ⟨h1, -⟩ := h; subst h1; exact ⟨rfl, rfl, rfl, fun hh => absurd rfl hh⟩
     · split at h
-      · rw [pure_ok] at h; obtain ⟨h1, -⟩ := h; subst h1; exact ⟨rfl, rfl, fun hh => absurd rfl hh⟩
+      · rw [pure_ok] at h; obtain ⟨h1, -⟩ := h; subst h1; exact ⟨rfl, rfl, rfl, fun hh => absurd rfl hh⟩
       · split at h
         · unfold initialise at h
           obtain ⟨o', e⟩ := oe
           obtain ⟨h1, h2⟩ := initLoop_nofail _ _ _ c c' hn o' e h
           subst h1 h2
-          exact ⟨rfl, rfl, fun hh => absurd rfl hh⟩
+          exact ⟨rfl, rfl, rfl, fun hh => absurd rfl hh⟩
         · split at h
           · rw [bind_ok] at h
             obtain ⟨_, c1, _, h⟩ := h
-            rw [pure_ok] at h; obtain ⟨h1, -⟩ := h; subst h1; exact ⟨rfl, rfl, fun hh => absurd rfl hh⟩
-          · rw [pure_ok] at h; obtain ⟨h1, -⟩ := h; subst h1; exact ⟨rfl, rfl, fun hh => absurd rfl hh⟩
+            rw [pure_ok] at h; obtain ⟨h1, -⟩ := h; subst h1; exact ⟨rfl, rfl, rfl, fun hh => absurd rfl hh⟩
+          · rw [pure_ok] at h; obtain ⟨h1, -⟩ := h; subst h1; exact ⟨rfl, rfl, rfl, fun hh => absurd rfl hh⟩
 
 /-- `Live` survives `soxr_set_io_ratio` (+ `soxr_set_error`) when no `resampler_create` fails; no error is cleared. -/
 theorem setIoRatio_live (o : Obj) (r : D) (slew : Nat) (c c' : Ctx) (hn : NoFail c.toks) (oe : Obj × Option Err)
     (h : setIoRatio o r slew c = .ok oe c') : Ext o oe.1 ∧ Ext o (setError oe.1 oe.2) := by
-  obtain ⟨h1, h2, h3⟩ := setIoRatio_nofail o r slew c c' hn oe h
-  refine ⟨⟨h1, fun hh => by rw [← h2]; exact hh⟩, ?_⟩
+  obtain ⟨h1, hd, h2, h3⟩ := setIoRatio_nofail o r slew c c' hn oe h
+  refine ⟨⟨h1, hd, fun hh => by rw [← h2]; exact hh⟩, ?_⟩
   cases ho : o.error with
   | none =>
     rw [setError_none _ _ (by rw [h2]; exact ho)]
-    exact ⟨h1, fun _ => ho⟩
+    exact ⟨h1, hd, fun _ => ho⟩
   | some x =>
     have he : oe.2 = some x := by rw [← ho]; exact h3 (by rw [ho]; exact fun hh => by cases hh)
-    refine ⟨by rw [setError_chans]; exact h1, fun hh => ?_⟩
+    refine ⟨by rw [setError_chans]; exact h1, by rw [setError_dead]; exact hd, fun hh => ?_⟩
     rw [setError_some _ _ x (by rw [h2]; exact ho), he] at hh
     cases hh
+
+/-- `Wf` survives `soxr_set_io_ratio` followed by `soxr_set_error`, for **every** oracle: when `resampler_create` fails
+    the object is the torn-down one with its error. -/
+theorem setIoRatio_wf (o : Obj) (r : D) (slew : Nat) (hw : Wf o) (c c' : Ctx) (oe : Obj × Option Err)
+    (h : setIoRatio o r slew c = .ok oe c') : Wf (setError oe.1 oe.2) ∧ Wf oe.1 := by
+  obtain ⟨cfg, chans, io, error, inited, dead, hasFn, maxIlen, flushing⟩ := o
+  unfold setIoRatio at h
+  simp only at h
+  have wfse : ∀ (o1 : Obj), Wf o1 → o1.error = none → ∀ e, Wf (setError o1 e) := fun o1 h1 h2 e => by
+    rw [setError_none o1 e h2]; exact h1
+  cases error with
+  | some x =>
+    simp only [Option.isSome_some, if_true] at h
+    rw [pure_ok] at h; obtain ⟨h1, -⟩ := h; subst h1
+    refine ⟨?_, hw⟩
+    have e1 : (setError (⟨cfg, chans, io, some x, inited, dead, hasFn, maxIlen, flushing⟩ : Obj) (some x)) =
+        ⟨cfg, chans, io, some x, inited, dead, hasFn, maxIlen, flushing⟩ := by
+      unfold setError; simp
+    rw [e1]; exact hw
+  | none =>
+    have hlive : chans ≠ 0 ∧ dead = false := by
+      rcases hw with h1 | ⟨_, h2⟩
+      · exact h1
+      · exact absurd rfl h2
+    simp only [Option.isSome_none, Bool.false_eq_true, if_false, hlive.1] at h
+    split at h
+    · rw [pure_ok] at h; obtain ⟨h1, -⟩ := h; subst h1
+      exact ⟨wfse _ hw rfl _, hw⟩
+    · split at h
+      · unfold initialise at h
+        obtain ⟨o', e⟩ := oe
+        rcases (initLoop_spec _ _ _ c).2 o' e c' h with ⟨h1, h2⟩ | ⟨h1, h2⟩
+        · subst h1 h2
+          have w2 : Wf (⟨cfg, chans, r, none, true, dead, hasFn, maxIlen, flushing⟩ : Obj) := Or.inl hlive
+          exact ⟨wfse _ w2 rfl _, w2⟩
+        · subst h1 h2
+          have w2 : Wf (deadObj .engine) := Or.inr ⟨rfl, fun hh => by cases hh⟩
+          refine ⟨?_, w2⟩
+          have e1 : setError (deadObj .engine) (some .engine) = deadObj .engine := by decide
+          rw [e1]; exact w2
+      · split at h
+        · rw [bind_ok] at h
+          obtain ⟨_, c1, _, h⟩ := h
+          rw [pure_ok] at h; obtain ⟨h1, -⟩ := h; subst h1
+          exact ⟨wfse _ hw rfl _, hw⟩
+        · rw [pure_ok] at h; obtain ⟨h1, -⟩ := h; subst h1
+          exact ⟨wfse _ hw rfl _, hw⟩
 
 /-- the generic "result of a step": the new object, and what it relates to. -/
 theorem setIoRatio_no_crash (o : Obj) (r : D) (slew : Nat) (c c' : Ctx) : setIoRatio o r slew c ≠ .crash c' := by
@@ -302,11 +367,37 @@ theorem srcCallbackRead_live (fuel : Nat) (o : Obj) (ratio : D) (olen : BitVec 6
     rw [pure_ok] at h; obtain ⟨h1, -⟩ := h; cases h1
     exact ⟨rr.1, rfl, ((setIoRatio_live o _ _ c c1 hn oe hoe).2.trans (soxrOutput_ext _ _ _ _ _ _ _ hp)).live hl⟩
 
-/-- `src_set_ratio` (any ratio): never crashes, keeps `Inv` (every oracle) and `Live` (no failing create). -/
+/-- **`src_process` keeps `Wf`** — every oracle. -/
+theorem srcProcess_wf (fuel : Nat) (o : Obj) (d : Data) (hw : Wf o) (c c' : Ctx) (p' : Option Obj) (r : PRes)
+    (h : srcProcess fuel (some o) (some d) c = .ok (p', r) c') : ∃ o', p' = some o' ∧ Wf o' := by
+  unfold srcProcess at h
+  simp only at h
+  rw [bind_ok] at h
+  obtain ⟨oe, c1, hoe, h⟩ := h
+  rw [bind_ok] at h
+  obtain ⟨rr, c2, hp, h⟩ := h
+  rw [pure_ok] at h; obtain ⟨h1, -⟩ := h; cases h1
+  exact ⟨rr.1, rfl, (soxrProcess_ext _ _ _ _ _ _ _ _ _ hp).wf (setIoRatio_wf o _ _ hw c c1 oe hoe).1⟩
+
+theorem srcCallbackRead_wf (fuel : Nat) (o : Obj) (ratio : D) (olen : BitVec 64) (outNull : Bool) (hw : Wf o)
+    (c c' : Ctx) (p' : Option Obj) (ret : Int) (h : srcCallbackRead fuel (some o) ratio olen outNull c = .ok (p', ret) c') :
+    ∃ o', p' = some o' ∧ Wf o' := by
+  unfold srcCallbackRead at h
+  simp only at h
+  split at h
+  · rw [pure_ok] at h; obtain ⟨h1, -⟩ := h; cases h1; exact ⟨o, rfl, hw⟩
+  · rw [bind_ok] at h
+    obtain ⟨oe, c1, hoe, h⟩ := h
+    rw [bind_ok] at h
+    obtain ⟨rr, c2, hp, h⟩ := h
+    rw [pure_ok] at h; obtain ⟨h1, -⟩ := h; cases h1
+    exact ⟨rr.1, rfl, (soxrOutput_ext _ _ _ _ _ _ _ hp).wf (setIoRatio_wf o _ _ hw c c1 oe hoe).1⟩
+
+/-- `src_set_ratio` (any ratio): never crashes, keeps `Inv` and `Wf` (every oracle) and `Live` (no failing create). -/
 theorem srcSetRatio_step (o : Obj) (ratio : D) (c : Ctx) :
     (∀ c', srcSetRatio (some o) ratio c ≠ .crash c') ∧
     (∀ p' rc c', srcSetRatio (some o) ratio c = .ok (p', rc) c' →
-      ∃ o', p' = some o' ∧ (Inv o → Inv o') ∧ (NoFail c.toks → Live o → Live o')) := by
+      ∃ o', p' = some o' ∧ (Inv o → Inv o') ∧ (Wf o → Wf o') ∧ (NoFail c.toks → Live o → Live o')) := by
   unfold srcSetRatio
   simp only
   constructor
@@ -319,26 +410,36 @@ theorem srcSetRatio_step (o : Obj) (ratio : D) (c : Ctx) :
     rw [bind_ok] at h
     obtain ⟨oe, c1, hoe, h⟩ := h
     rw [pure_ok] at h; obtain ⟨h1, -⟩ := h; cases h1
-    exact ⟨oe.1, rfl, fun hi => (setIoRatio_inv o _ _ hi c c1 oe hoe).2,
+    exact ⟨oe.1, rfl, fun hi => (setIoRatio_inv o _ _ hi c c1 oe hoe).2, fun hw => (setIoRatio_wf o _ _ hw c c1 oe hoe).2,
       fun hn hl => (setIoRatio_live o _ _ c c1 hn oe hoe).1.live hl⟩
 
 theorem closeAll_spec (o : Obj) (c c' : Ctx) (u : Unit) (h : closeAll o c = .ok u c') : c'.toks = c.toks := by
   obtain ⟨c1, h1, h2⟩ := closeAll_ok o c
   rw [h1] at h; cases h; exact h2
 
-/-- `src_reset`: never crashes; on a `Live` object the result satisfies `Inv` (every oracle) and is `Live` when no
-    `resampler_create` fails. -/
-theorem srcReset_step (o : Obj) (c : Ctx) :
-    (∀ c', srcReset (some o) c ≠ .crash c') ∧
-    (∀ p' rc c', srcReset (some o) c = .ok (p', rc) c' →
-      ∃ o', p' = some o' ∧ (Live o → Inv o') ∧ (NoFail c.toks → Live o → Live o')) := by
-  unfold srcReset soxrClear
-  simp only
-  constructor
-  · intro c' h
-    rw [bind_crash] at h
-    rcases h with h | ⟨_, _, _, h⟩
-    · rw [bind_crash] at h
+/-- `soxr_clear` (as repaired, /repo b5a678f): never crashes, keeps `Wf` for **every** oracle — a torn-down object is
+    refused and keeps its error — and keeps `Live` when no `resampler_create` fails. -/
+theorem soxrClear_step (o : Obj) (c : Ctx) :
+    (∀ c', soxrClear o c ≠ .crash c') ∧
+    (∀ oe c', soxrClear o c = .ok oe c' → (Wf o → Wf oe.1) ∧ (NoFail c.toks → Live o → Live oe.1)) := by
+  unfold soxrClear
+  split
+  · refine ⟨fun c' => pure_no_crash _ _ _, ?_⟩
+    intro oe c' h
+    rw [pure_ok] at h; obtain ⟨h1, -⟩ := h; subst h1
+    exact ⟨id, fun _ hl => hl⟩
+  · rename_i hz
+    have hlive : Wf o → o.chans ≠ 0 ∧ o.dead = false := by
+      intro hw
+      rcases hw with h1 | ⟨h1, h2⟩
+      · exact h1
+      · exfalso; apply hz
+        cases he : o.error with
+        | none => exact absurd he h2
+        | some x => simp [h1]
+    constructor
+    · intro c' h
+      rw [bind_crash] at h
       rcases h with h | ⟨_, c1, _, h⟩
       · obtain ⟨c2, h1, _⟩ := closeAll_ok o c
         rw [h1] at h; cases h
@@ -347,30 +448,52 @@ theorem srcReset_step (o : Obj) (c : Ctx) :
         · split at h
           · exact setIoRatio_no_crash _ _ _ _ _ h
           · exact pure_no_crash _ _ _ h
+    · intro oe c' h
+      rw [bind_ok] at h
+      obtain ⟨_, c2, hcl, h⟩ := h
+      have ht := closeAll_spec o c c2 _ hcl
+      split at h
+      · rw [pure_ok] at h; obtain ⟨h1, -⟩ := h; subst h1
+        exact ⟨fun hw => Or.inl (hlive hw), fun _ hl => hl⟩
+      · split at h
+        · have hcl' : ∀ (hl : Live o), Live ({ o with error := none, inited := false, flushing := false } : Obj) := fun hl => hl
+          have hw' : Wf o → Wf ({ o with error := none, inited := false, flushing := false } : Obj) :=
+            fun hw => Or.inl (hlive hw)
+          exact ⟨fun hw => (setIoRatio_wf _ _ _ (hw' hw) c2 c' oe h).2,
+            fun hn hl => (setIoRatio_live _ _ _ c2 c' (by rw [ht]; exact hn) oe h).1.live (hcl' hl)⟩
+        · rw [pure_ok] at h; obtain ⟨h1, -⟩ := h; subst h1
+          exact ⟨fun hw => Or.inl (hlive hw), fun _ hl => hl⟩
+
+/-- `src_reset`: never crashes, keeps `Wf` (every oracle) and `Live` (no failing create). -/
+theorem srcReset_step (o : Obj) (c : Ctx) :
+    (∀ c', srcReset (some o) c ≠ .crash c') ∧
+    (∀ p' rc c', srcReset (some o) c = .ok (p', rc) c' →
+      ∃ o', p' = some o' ∧ (Wf o → Wf o') ∧ (NoFail c.toks → Live o → Live o')) := by
+  obtain ⟨n1, n2⟩ := soxrClear_step o c
+  unfold srcReset
+  simp only
+  constructor
+  · intro c' h
+    rw [bind_crash] at h
+    rcases h with h | ⟨_, _, _, h⟩
+    · exact n1 _ h
     · exact pure_no_crash _ _ _ h
   · intro p' rc c' h
     rw [bind_ok] at h
     obtain ⟨oe, c1, hoe, h⟩ := h
     rw [pure_ok] at h; obtain ⟨h1, -⟩ := h; cases h1
-    refine ⟨oe.1, rfl, ?_⟩
-    rw [bind_ok] at hoe
-    obtain ⟨_, c2, hcl, hoe⟩ := hoe
-    have ht := closeAll_spec o c c2 _ hcl
-    split at hoe
-    · rw [pure_ok] at hoe; obtain ⟨h1, -⟩ := hoe; subst h1
-      exact ⟨fun hl _ => hl, fun _ hl => hl⟩
-    · split at hoe
-      · have hcl' : ∀ (hl : Live o), Live ({ o with error := none, inited := false, flushing := false } : Obj) := fun hl => hl
-        exact ⟨fun hl => (setIoRatio_inv _ _ _ (hcl' hl).inv c2 c1 oe hoe).2,
-          fun hn hl => (setIoRatio_live _ _ _ c2 c1 (by rw [ht]; exact hn) oe hoe).1.live (hcl' hl)⟩
-      · rw [pure_ok] at hoe; obtain ⟨h1, -⟩ := hoe; subst h1
-        exact ⟨fun hl _ => hl, fun _ hl => hl⟩
+    exact ⟨oe.1, rfl, (n2 oe c1 hoe).1, (n2 oe c1 hoe).2⟩
 
-/-- **`src_reset` does not keep `Inv`**: the zeroed object a failed `resampler_create` leaves satisfies `Inv` (its error is
-    stored); `soxr_clear` drops the error and keeps the zero channel count. -/
-theorem reset_breaks_inv :
+/-- the torn-down object is refused by `src_reset` and the next call reports the error. -/
+theorem reset_refuses_torn_down :
+    srcReset (some (deadObj .engine)) ⟨[], []⟩ = .ok (some (deadObj .engine), -1) ⟨[], []⟩ := by decide
+
+/-- HISTORICAL (finding F40, fixed by /repo b5a678f): the pre-repair `src_reset` did not keep `Inv` — the torn-down object
+    a failed `resampler_create` leaves satisfies `Inv` (its error is stored); the old `soxr_clear` dropped the error and kept
+    the zero channel count. -/
+theorem Historical.reset_breaks_inv :
     Inv (deadObj .engine) ∧
-    srcReset (some (deadObj .engine)) ⟨[], []⟩ = .ok (some { deadObj .engine with error := none }, 0) ⟨[], []⟩ ∧
+    Historical.srcResetPre (some (deadObj .engine)) ⟨[], []⟩ = .ok (some { deadObj .engine with error := none }, 0) ⟨[], []⟩ ∧
     ¬ Inv { deadObj .engine with error := none } := by
   refine ⟨fun h => (by cases h), (by decide), fun h => h rfl rfl⟩
 
@@ -391,10 +514,6 @@ def Op.inContract : Op → Prop
   | .process d => dpos (recip d.ratio) = true
   | .read r _ _ => dpos (recip r) = true
   | _ => True
-
-def Op.isReset : Op → Bool
-  | .reset => true
-  | _ => false
 
 /-- outcome of a step / of a sequence. -/
 inductive Out where
@@ -439,12 +558,12 @@ theorem outOf_ok {α : Type} (r : R (Option Obj × α)) (o : Obj) (h : outOf r =
   unfold outOf at h
   split at h <;> first | (cases h; exact ⟨_, _, rfl⟩) | cases h
 
-/-- one in-contract step from an `Inv` object: no crash; the result keeps `Inv` unless the op is `reset`, and keeps `Live`
-    when no `resampler_create` fails. -/
-theorem stepOp_spec (fuel : Nat) (o : Obj) (op : Op) (toks : List Tok) (hc : op.inContract) (hi : Inv o) :
+/-- one in-contract step from a `Wf` object, **every oracle**: no crash, the result is `Wf` again; the channel count is
+    kept when no `resampler_create` fails. -/
+theorem stepOp_spec (fuel : Nat) (o : Obj) (op : Op) (toks : List Tok) (hc : op.inContract) (hw : Wf o) :
     stepOp fuel o op toks ≠ .crash ∧
-    (∀ o', stepOp fuel o op toks = .ok o' →
-      (op.isReset = false → Inv o') ∧ (NoFail toks → Live o → Live o')) := by
+    (∀ o', stepOp fuel o op toks = .ok o' → Wf o' ∧ (NoFail toks → Live o → Live o')) := by
+  have hi := hw.inv
   cases op with
   | process d =>
     constructor
@@ -453,8 +572,8 @@ theorem stepOp_spec (fuel : Nat) (o : Obj) (op : Op) (toks : List Tok) (hc : op.
       exact srcProcess_no_crash fuel o d hi hc _ _ hcr
     · intro o' h
       obtain ⟨a, c, hok⟩ := outOf_ok _ o' h
-      refine ⟨fun _ => ?_, fun hn hl => ?_⟩
-      · obtain ⟨o2, e, i2⟩ := srcProcess_inv fuel o d hi _ _ _ _ hok; cases e; exact i2
+      refine ⟨?_, fun hn hl => ?_⟩
+      · obtain ⟨o2, e, i2⟩ := srcProcess_wf fuel o d hw _ _ _ _ hok; cases e; exact i2
       · obtain ⟨o2, e, i2⟩ := srcProcess_live fuel o d hl _ _ hn _ _ hok; cases e; exact i2
   | read r olen outNull =>
     constructor
@@ -463,8 +582,8 @@ theorem stepOp_spec (fuel : Nat) (o : Obj) (op : Op) (toks : List Tok) (hc : op.
       exact srcCallbackRead_no_crash fuel o r olen outNull hi hc _ _ hcr
     · intro o' h
       obtain ⟨a, c, hok⟩ := outOf_ok _ o' h
-      refine ⟨fun _ => ?_, fun hn hl => ?_⟩
-      · obtain ⟨o2, e, i2⟩ := srcCallbackRead_inv fuel o r olen outNull hi _ _ _ _ hok; cases e; exact i2
+      refine ⟨?_, fun hn hl => ?_⟩
+      · obtain ⟨o2, e, i2⟩ := srcCallbackRead_wf fuel o r olen outNull hw _ _ _ _ hok; cases e; exact i2
       · obtain ⟨o2, e, i2⟩ := srcCallbackRead_live fuel o r olen outNull hl _ _ hn _ _ hok; cases e; exact i2
   | setRatio r =>
     obtain ⟨n1, n2⟩ := srcSetRatio_step o r ⟨[], toks⟩
@@ -474,9 +593,9 @@ theorem stepOp_spec (fuel : Nat) (o : Obj) (op : Op) (toks : List Tok) (hc : op.
       exact n1 _ hcr
     · intro o' h
       obtain ⟨a, c, hok⟩ := outOf_ok _ o' h
-      obtain ⟨o2, e, i2, l2⟩ := n2 _ _ _ hok
+      obtain ⟨o2, e, _, w2, l2⟩ := n2 _ _ _ hok
       cases e
-      exact ⟨fun _ => i2 hi, l2⟩
+      exact ⟨w2 hw, l2⟩
   | reset =>
     obtain ⟨n1, n2⟩ := srcReset_step o ⟨[], toks⟩
     constructor
@@ -485,49 +604,54 @@ theorem stepOp_spec (fuel : Nat) (o : Obj) (op : Op) (toks : List Tok) (hc : op.
       exact n1 _ hcr
     · intro o' h
       obtain ⟨a, c, hok⟩ := outOf_ok _ o' h
-      obtain ⟨o2, e, _, l2⟩ := n2 _ _ _ hok
+      obtain ⟨o2, e, w2, l2⟩ := n2 _ _ _ hok
       cases e
-      exact ⟨fun hf => (by cases hf), l2⟩
+      exact ⟨w2 hw, l2⟩
   | error =>
     constructor
     · intro h; cases h
     · intro o' h
       cases h
-      exact ⟨fun _ => hi, fun _ hl => hl⟩
+      exact ⟨hw, fun _ hl => hl⟩
 
-/-- **every sequence of in-contract calls during which no `resampler_create` fails, from a `Live` object: no crash.** -/
-theorem runOps_no_crash_live (fuel : Nat) (o : Obj) (hl : Live o) (ops : List (Op × List Tok))
-    (hops : ∀ x ∈ ops, x.1.inContract ∧ NoFail x.2) : runOps fuel o ops ≠ .crash := by
+/-- **every sequence of in-contract calls — `src_reset` included, every oracle, failing `resampler_create` included —
+    from a `Wf` object: no crash**, and the object stays `Wf`. -/
+theorem runOps_no_crash (fuel : Nat) (o : Obj) (hw : Wf o) (ops : List (Op × List Tok))
+    (hops : ∀ x ∈ ops, x.1.inContract) :
+    runOps fuel o ops ≠ .crash ∧ ∀ o', runOps fuel o ops = .ok o' → Wf o' := by
   induction ops generalizing o with
-  | nil => unfold runOps; intro h; cases h
+  | nil =>
+    unfold runOps
+    exact ⟨fun h => (by cases h), fun o' h => (by cases h; exact hw)⟩
+  | cons x rest ih =>
+    obtain ⟨op, toks⟩ := x
+    have hc := hops (op, toks) List.mem_cons_self
+    obtain ⟨n1, n2⟩ := stepOp_spec fuel o op toks hc hw
+    unfold runOps
+    cases hs : stepOp fuel o op toks with
+    | ok o' =>
+      simp only
+      exact ih o' (n2 o' hs).1 (fun y hy => hops y (List.mem_cons_of_mem _ hy))
+    | crash => exact absurd hs n1
+    | desync => exact ⟨fun h => (by cases h), fun o' h => (by cases h)⟩
+
+/-- when moreover no `resampler_create` fails, the converter keeps its channel count throughout (it is never torn down). -/
+theorem runOps_live (fuel : Nat) (o : Obj) (hw : Wf o) (hl : Live o) (ops : List (Op × List Tok))
+    (hops : ∀ x ∈ ops, x.1.inContract ∧ NoFail x.2) : ∀ o', runOps fuel o ops = .ok o' → Live o' := by
+  induction ops generalizing o with
+  | nil => unfold runOps; intro o' h; cases h; exact hl
   | cons x rest ih =>
     obtain ⟨op, toks⟩ := x
     obtain ⟨hc, hn⟩ := hops (op, toks) List.mem_cons_self
-    obtain ⟨n1, n2⟩ := stepOp_spec fuel o op toks hc hl.inv
+    obtain ⟨n1, n2⟩ := stepOp_spec fuel o op toks hc hw
     unfold runOps
     cases hs : stepOp fuel o op toks with
     | ok o' =>
       simp only
-      exact ih o' ((n2 o' hs).2 hn hl) (fun y hy => hops y (List.mem_cons_of_mem _ hy))
-    | crash => exact absurd hs n1
-    | desync => simp
+      exact ih o' (n2 o' hs).1 ((n2 o' hs).2 hn hl) (fun y hy => hops y (List.mem_cons_of_mem _ hy))
+    | crash => intro o' h; cases h
+    | desync => intro o' h; cases h
 
-/-- **every sequence of in-contract calls without `src_reset`, for every oracle (failing creates included), from an
-    `Inv` object: no crash.** -/
-theorem runOps_no_crash_no_reset (fuel : Nat) (o : Obj) (hi : Inv o) (ops : List (Op × List Tok))
-    (hops : ∀ x ∈ ops, x.1.inContract ∧ x.1.isReset = false) : runOps fuel o ops ≠ .crash := by
-  induction ops generalizing o with
-  | nil => unfold runOps; intro h; cases h
-  | cons x rest ih =>
-    obtain ⟨op, toks⟩ := x
-    obtain ⟨hc, hr⟩ := hops (op, toks) List.mem_cons_self
-    obtain ⟨n1, n2⟩ := stepOp_spec fuel o op toks hc hi
-    unfold runOps
-    cases hs : stepOp fuel o op toks with
-    | ok o' =>
-      simp only
-      exact ih o' ((n2 o' hs).1 hr) (fun y hy => hops y (List.mem_cons_of_mem _ hy))
-    | crash => exact absurd hs n1
-    | desync => simp
+theorem fresh_wf (id chans : Nat) (fn : Bool) (hch : chans ≠ 0) : Wf (fresh id chans fn) := Or.inl ⟨hch, rfl⟩
 
 end Soxr.Lsr
